@@ -920,3 +920,42 @@ def c17_12(R):
             R.fail([b.name, "total_len_bytes-read-before(pop_expired_mtu_probe)"],
                    "the segmented byte count that `remaining` is computed from is read before the expired probe is popped: after a probe is given up its bytes are counted as still segmented, so they "
                    "are never cut into a new segment and the stream stalls behind them", where=t.where(), instance="segmented-count-read-after-pop")
+
+
+@rule("C17.13", ["C17", "C06", "C02"], ["E2", "E6"], "last_sent_seq_nr moves forward only for a packet the transport accepted",
+      "last_sent_seq_nr is what decides whether the FIN may go out (our_fin - last_sent_seq_nr == 1), what an RTO rewinds and what flight size is computed from. It is set to the sequence number "
+      "of a packet at four places - the three send_data! closures (under transport_pending = false after the send) and maybe_send_fin - and in maybe_send_fin the store must be controlled by "
+      "send_control_packet(..)? = true. Recorded before the send, a FIN that met a full socket is never sent (the gate our_fin - last_sent == 1 is closed from then on) and no timer was armed "
+      "for it: the connection dies silently without telling the peer.")
+def c17_13(R):
+    b = R.body(VS + "::maybe_send_fin")
+    stores = [s for s in b.stmts() if written_field(b, s) == "VirtualSocket.last_sent_seq_nr"]
+    R.floor("stores to last_sent_seq_nr in maybe_send_fin", len(stores), 1)
+    sends = [t for t in b.calls() if call_matches(t, (VS + "::send_control_packet",))]
+    R.require(len(sends) == 1, "send_control_packet call in maybe_send_fin")
+    snd = sends[0]
+    for s in stores:
+        ok = False
+        for c, truth, d, term, *_ in controlling(b, s.bb):
+            # the `true` of the bool inside the Ok the send returned
+            if truth and getattr(c, "trace", None) is not None:
+                t = c.trace
+                if t.kind == "call" and (t.root[1] is snd or (call_matches(t.root[1], ("Try::branch", "Try>::branch")) and trace(b, t.root[1].args[0]).kind == "call" and trace(b, t.root[1].args[0]).root[1] is snd)):
+                    ok = True
+        if ok and point_reaches(b, snd, s):
+            R.ok("fin-recorded-only-if-sent", b.name, "last_sent_seq_nr = our_fin under send_control_packet(..)? = true")
+        else:
+            R.fail([b.name, "last_sent_seq_nr-store-not-under(sent)"], "maybe_send_fin records the FIN's sequence number as sent before (or regardless of whether) the transport accepted the packet: after one "
+                   "would-block the FIN gate stays closed, the FIN is never transmitted and no retransmission timer runs for it", where=s.where(), instance="fin-recorded-only-if-sent")
+    # the three data-send closures: covered by the same condition as the ACK bookkeeping (C07.8); here only that the stores exist where expected
+    n = 0
+    for cb in R.facts.bodies(lambda nm: nm.startswith(VS + "::send_tx_queue::{closure")):
+        for s in cb.stmts():
+            if written_field(cb, s) == "VirtualSocket.last_sent_seq_nr":
+                n += 1
+                ds = [d for _c, _t, d, *_ in controlling(cb, s.bb)]
+                if "field:ThisPoll.transport_pending=false" in ds:
+                    R.ok("data-recorded-only-if-sent", cb.name, "under transport_pending = false")
+                else:
+                    R.fail([cb.name, "last_sent_seq_nr-store-not-under(transport_pending=false)"], "a data segment is recorded as sent although the transport may not have taken it", where=s.where(), instance="data-recorded-only-if-sent")
+    R.floor("send_data! stores to last_sent_seq_nr", n, 3)
